@@ -154,6 +154,8 @@ Theorem C13_logv_forwards_align_corners :
 Proof. intro ac. repeat split; destruct ac; reflexivity. Qed.
 Theorem C13_compose_flows_batched : gen_compose_flows_batched = true.
 Proof. reflexivity. Qed.
+Theorem C13_compose_coordinates_in_field_dtype : gen_compose_coords_in_field_dtype = true.
+Proof. reflexivity. Qed.
 End Statements.
 
 (* 7. logv(spacing=None) differentiates its BCH brackets with the distance of neighbouring grid points of the convention it is
@@ -182,6 +184,7 @@ Print Assumptions C13_bch_table.
 Print Assumptions C13_bch_commuting.
 Print Assumptions C13_logv_forwards_align_corners.
 Print Assumptions C13_compose_flows_batched.
+Print Assumptions C13_compose_coordinates_in_field_dtype.
 
 (* PARTIAL clauses, not proved (quantitative statements about discretised smooth fields; explored numerically on the
    implementation by tools/props/c13.py:search): BCH error for non-commuting fields does not grow with the truncation
